@@ -133,7 +133,9 @@ func c15GenData(r *rand.Rand, name string) []byte {
 		b = []byte(c15Pick(r, c15Texts) + "\n" + c15Pick(r, c15Texts))
 	}
 	if r.Intn(9) == 0 {
-		b = append([]byte{0xEF, 0xBB, 0xBF}, b...)
+		for k := 1 + r.Intn(3)/2 + r.Intn(5)/4; k > 0; k-- { // mostly one BOM, sometimes two or three
+			b = append([]byte{0xEF, 0xBB, 0xBF}, b...)
+		}
 	}
 	return b
 }
@@ -174,7 +176,7 @@ func c15GenChart(r *rand.Rand, depth int, name string, hostile bool) *c15Chart {
 		for i := 0; i < n; i++ {
 			dn := c15GoodNames[perm[i]]
 			if hostile && r.Intn(6) == 0 {
-				dn = c15Pick(r, []string{"_under", ".dot", "x.tgz", "a b"})
+				dn = c15Pick(r, []string{"_under", ".dot", "x.tgz", "a b", "../evil", "sub/dir", "../../up", "a\\b"})
 			}
 			depNames = append(depNames, dn)
 			c.Deps = append(c.Deps, c15GenChart(r, depth-1, dn, hostile && r.Intn(3) == 0))
@@ -460,6 +462,19 @@ func (p *c15) Corpus() []any {
 	// K4 witness: a binary file that begins with EF BB BF
 	out = append(out, c15Case{Kind: "rt", Note: "K4", Chart: &c15Chart{Meta: md("v2", "k4", "0.1.0"),
 		Files: []c15File{{Name: "bin/blob", Data: []byte{0xEF, 0xBB, 0xBF, 1, 2, 3}}}}})
+	// a valid root with a dependency (one and two levels down) whose name has a path separator:
+	// nothing may be packaged, no entry may leave <root>/
+	for _, bad := range []string{"../evil", "sub/dir", "../../up"} {
+		out = append(out, c15Case{Kind: "rt", Chart: &c15Chart{Meta: md("v2", "root", "0.1.0"),
+			Deps: []*c15Chart{{Meta: md("v2", bad, "0.1.0"), Files: []c15File{{Name: "f", Data: []byte("f")}}}}}})
+		out = append(out, c15Case{Kind: "rt", Chart: &c15Chart{Meta: md("v2", "root", "0.1.0"),
+			Deps: []*c15Chart{{Meta: md("v2", "mid", "0.1.0"), Deps: []*c15Chart{{Meta: md("v2", bad, "0.1.0"), Files: []c15File{{Name: "f", Data: []byte("f")}}}}}}}})
+	}
+	// files that begin with two and three BOMs: both loaders remove exactly one
+	bom := []byte{0xEF, 0xBB, 0xBF}
+	out = append(out, c15Case{Kind: "rt", Chart: &c15Chart{Meta: md("v2", "boms", "0.1.0"),
+		Templates: []c15File{{Name: "templates/two.yaml", Data: append(append(append([]byte{}, bom...), bom...), []byte("a: 1")...)}},
+		Files:     []c15File{{Name: "notes.txt", Data: append(append(append(append([]byte{}, bom...), bom...), bom...), []byte("text")...)}, {Name: "bin/two", Data: append(append(append([]byte{}, bom...), bom...), 1, 2, 3)}}}})
 	// plain round trips: v2 with lock, v1 with requirements files, nested dependencies
 	lock := &chart.Lock{Generated: time.Unix(1700000000, 5).UTC(), Digest: "sha256:0123", Dependencies: []*chart.Dependency{{Name: "sub", Version: "0.1.0", Repository: "https://example.com"}}}
 	out = append(out, c15Case{Kind: "rt", Chart: &c15Chart{Meta: md("v2", "full", "1.2.3"), Lock: lock, HasValues: true, Values: []byte("a: 1\n# c\nb: [x]\n"),
@@ -503,6 +518,8 @@ func (p *c15) Corpus() []any {
 	}
 	out = append(out, c15Case{Kind: "dir", Files: tree("*.bak\nfiles/\n/README.md\n")})
 	out = append(out, c15Case{Kind: "dir", Files: tree("!*.yaml\n")})
+	out = append(out, c15Case{Kind: "dir", Files: tree(".git/\nnode_modules/\n*.bak\nREADME.md\n")})
+	out = append(out, c15Case{Kind: "dir", Files: tree("docs/\nfiles/x.txt\n")})
 	out = append(out, c15Case{Kind: "dir", Files: tree("**/x\n")})
 	out = append(out, c15Case{Kind: "dir", Files: tree("Chart.yaml\n")})
 	out = append(out, c15Case{Kind: "dir", PkgVersion: "not-a-version", Files: tree("")})
